@@ -96,6 +96,7 @@ func siteCount(d interface {
 type engineOut struct {
 	caseLine string // for the model; empty if the case cannot be expressed
 	resLine  string // implementation observation
+	origLine string // canonical form of the input file
 	skip     string // why the case was skipped, if it was
 	matched  bool
 	failed   bool
@@ -149,6 +150,7 @@ func runEngineCase(c Case) (out engineOut) {
 	sb.WriteString(`) (file (pkg "` + esc(f.Name.Name) + `") ` + dumpImports(f.Imports, false) +
 		" (tree " + fd.sb.String() + ") (next " + strconv.Itoa(fd.nextID+1) + ")))")
 	out.caseLine = sb.String()
+	out.origLine = "(orig " + c.ID + " " + canonFile(f) + ")"
 
 	// implementation side
 	var trace []string
